@@ -95,7 +95,7 @@ class C16(Check):
 
     def spaces(self, tier):
         Q = tier == "quick"
-        plan = [("full", 3, 1), ("qmdonly", 4, 2)] if Q else [("full", 4, 2), ("qmdonly", 7, 2)]
+        plan = [("full", 3, 1), ("qmdonly", 4, 2)] if Q else [("full", 4, 2), ("qmdonly", 6, 2)]
         out = []
         for mname, depth, plen in plan:
             m = self._model(mname)
